@@ -434,6 +434,30 @@ func jumpMapCases() []jmCase {
 	return cs
 }
 
+// bigCodeCases: the same PUSH32 trap behind more than 64 KiB of JUMPDESTs
+// (destinations need 3 bytes; bitmap positions far from the start).
+func bigCodeCases() []*Prog {
+	var ps []*Prog
+	for _, pad := range []int{65536 - 5 - 20, 65536 - 5, 70001} {
+		for _, n := range []int{1, 8, 31, 32} {
+			start := 5 + pad // position of the PUSHn opcode
+			for t := start - 2; t <= start+n+3; t++ {
+				b := []byte{0x62, byte(t >> 16), byte(t >> 8), byte(t), 0x56}
+				for i := 0; i < pad; i++ {
+					b = append(b, 0x5b)
+				}
+				b = append(b, byte(0x5f+n))
+				for i := 0; i < n; i++ {
+					b = append(b, 0x5b)
+				}
+				b = append(b, 0x5b, 0x5b)
+				ps = append(ps, &Prog{Body: b, Tail: "return", Note: "jump map behind 64 KiB of code"})
+			}
+		}
+	}
+	return ps
+}
+
 func (c jmCase) prog() *Prog {
 	b := []byte{0x61, byte(c.t >> 8), byte(c.t), 0x56}
 	for i := 0; i < c.a; i++ {
@@ -962,7 +986,7 @@ func families(r *mon.Run, cfgName string, ft feat) []family {
 			op := ternaryOps[i/(g3*g3*g3)]
 			return opCase(op, i%2 == 0, grid3[(i/(g3*g3))%g3], grid3[(i/g3)%g3], grid3[i%g3])
 		}})
-		nr := r.Pick(1500, 60000)
+		nr := r.Pick(1500, 100000)
 		fams = append(fams, family{"grid2r", len(binaryOps) * nr, func(i int) *Prog {
 			rng := rnd("grid2r", i)
 			op := binaryOps[i%len(binaryOps)]
@@ -985,7 +1009,13 @@ func families(r *mon.Run, cfgName string, ft feat) []family {
 		}})
 
 		jm := jumpMapCases()
-		fams = append(fams, family{"jumpmap", len(jm), func(i int) *Prog { return jm[i].prog() }})
+		bc := bigCodeCases()
+		fams = append(fams, family{"jumpmap", len(jm) + len(bc), func(i int) *Prog {
+			if i >= len(jm) {
+				return bc[i-len(jm)]
+			}
+			return jm[i].prog()
+		}})
 		st := stackCases(ft)
 		fams = append(fams, family{"stack", len(st), func(i int) *Prog { return st[i] }})
 	}
@@ -994,9 +1024,9 @@ func families(r *mon.Run, cfgName string, ft feat) []family {
 	tc := termCases(ft)
 	fams = append(fams, family{"term", len(tc), func(i int) *Prog { return tc[i] }})
 
-	fams = append(fams, family{"line", r.Pick(220000, 9000000) / scale, func(i int) *Prog { return genLine(rnd("line", i), ft, lineOpts{}) }})
-	fams = append(fams, family{"memline", r.Pick(60000, 2500000) / scale, func(i int) *Prog { return genLine(rnd("memline", i), ft, lineOpts{memBias: true}) }})
-	fams = append(fams, family{"branch", r.Pick(90000, 4000000) / scale, func(i int) *Prog { return genBranch(rnd("branch", i), ft) }})
-	fams = append(fams, family{"maze", r.Pick(50000, 2000000) / scale, func(i int) *Prog { return genMaze(rnd("maze", i), ft) }})
+	fams = append(fams, family{"line", r.Pick(400000, 20000000) / scale, func(i int) *Prog { return genLine(rnd("line", i), ft, lineOpts{}) }})
+	fams = append(fams, family{"memline", r.Pick(120000, 5000000) / scale, func(i int) *Prog { return genLine(rnd("memline", i), ft, lineOpts{memBias: true}) }})
+	fams = append(fams, family{"branch", r.Pick(180000, 9000000) / scale, func(i int) *Prog { return genBranch(rnd("branch", i), ft) }})
+	fams = append(fams, family{"maze", r.Pick(80000, 4000000) / scale, func(i int) *Prog { return genMaze(rnd("maze", i), ft) }})
 	return fams
 }
